@@ -654,6 +654,9 @@ func historyFeat(cs Case, f *Fail, outcomes []string) string {
 	}
 	var parts []string
 	for _, k := range []string{"reopen", "purgeAll", "shrinkMax"} {
+		if k == "shrinkMax" && !strings.Contains(f.Clause, "size-limit") {
+			continue // the max size only matters for the size-limit clauses
+		}
 		if seen[k] {
 			parts = append(parts, k)
 		}
